@@ -18,7 +18,7 @@ m = {
     "setup_cmd": "./check setup",
     "hooks": {
         "guard": "verif",
-        "enable": "checks compile the harness module (replace github.com/zitadel/oidc/v3 => /repo) with `go test -c -tags verif`; no hook is currently needed, the tag is reserved",
+        "enable": "checks compile the harness module (replace github.com/zitadel/oidc/v3 => /repo) with `go test -c -tags verif`; one hook: rp.VerifAfterInflightDone (pkg/client/rp/jwks_verif.go), a no-op function without the tag (jwks_noverif.go), used by the C13 schedules",
         "baseline_off_cmd": "cd /repo && GOFLAGS=-mod=mod GOPROXY=off go test -json -vet=off -count=1 -timeout 25m ./...",
         "source_commits": hooks_commits,
         "add_only": True,
